@@ -1,7 +1,7 @@
 (* C11 - partial-channel inference ignores withheld channels; channel joins
    round-trip.  Statements only. *)
 From Coq Require Import List Bool Arith ZArith Reals.
-From ART Require Import Num NumR Vec Search Kernel Fusion Fusion_proofs Fusion_prep.
+From ART Require Import Num NumR Vec Search Kernel Fusion Fusion_proofs Fusion_prep Fusion_skip.
 Import ListNotations.
 Open Scope nat_scope.
 
@@ -13,7 +13,18 @@ Theorem C11_skip_independent :
     fusion_choice_skip mods gammas dims wdims skip Ws x w = fusion_choice_skip mods gammas dims wdims skip Ws x' w.
 Proof. exact @skip_independent. Qed.
 
-(* the skipped channels contribute a constant; the arg-max is that of the remaining channels *)
+(* with channels withheld the activation of a category IS the gamma-weighted sum of the remaining channels' own
+   activations (a skipped channel contributes nothing), so predict's arg-max is the arg-max of exactly that sum *)
+Theorem C11_activation_is_the_weighted_sum_of_the_remaining_channels :
+  forall (mods : list (Kernel RN)) (gammas : list (T RN)) (dims wdims skip : list nat) (Ws : list (list (T RN))) (x w : list (T RN)) (t : R),
+    fusion_choice_skip mods gammas dims wdims skip Ws x w = Some t ->
+    exists ts, length ts = length (combine mods (pos dims wdims)) /\
+      (forall k Kp, nth_error (combine mods (pos dims wdims)) k = Some Kp -> existsb (Nat.eqb k) skip = false ->
+                    nth_error ts k = own Ws x w Kp) /\
+      t = rem_sum 0 skip (combine ts gammas).
+Proof. exact skip_choice_is_remaining_sum. Qed.
+
+(* (a constant added to every activation would not move the arg-max either) *)
 Theorem C11_argmax_shift :
   forall (k : R) (T : list R), argmax Rleb (map (fun a => (a + k)%R) T) = argmax Rleb T.
 Proof. exact argmax_shift. Qed.
@@ -37,6 +48,7 @@ Proof. exact @restore_prepare. Qed.
 Print Assumptions C11_skip_independent.
 Print Assumptions C11_restore_prepare_with_skips.
 Print Assumptions C11_argmax_shift.
+Print Assumptions C11_activation_is_the_weighted_sum_of_the_remaining_channels.
 Print Assumptions C11_split_join.
 
 (* negative indices name channels from the end *)
